@@ -5,7 +5,7 @@ PID = "C04"
 MIX = [("file", {}), ("names", {}), ("full", {}), ("dirc", {}), ("extbound", {}), ("extfull", {}), ("names", {"dostype": 4, "latin": True}), ("names", {"dostype": 5, "latin": True, "nops": 60}), ("slotsweep", {}), ("pagecross", {}), ("bigrm", {}), ("dircspill", {}), ("dircgrow", {}), ("ofsappend", {}), ("geom", {"size": 210003})]
 RULE = ('every quiescent point of seeded histories (incl. failing calls, volume-full episodes, remounts): reachability closure of the decoded image versus the on-disk bitmap: no block reached twice, none in use while marked free, none outside the volume')
 def run(res):
-    histprop.run(res, PID, MIX, {"C04", "BM"}, RULE, nquick=60, nthorough=1500)
+    histprop.run(res, PID, MIX, {"C04", "BM", "MF"}, RULE, nquick=60, nthorough=1500)
     # undelete (adf_salv.c, not modelled): decided on the real code by the probe of props/undel.py
     if not res.violations:
         exe = vlib.build_harness("asan")
